@@ -429,7 +429,12 @@ func runLifeSchedule(mp *ModelProc, r *Rng, max int, nsteps int, fixed []string)
 			}
 			t0 := time.Now()
 			if !lr.waitFor("finished", id, 2*time.Second) {
-				o.fail("correspondence", "finish", "session did not end ("+f[2]+")", "finished", "")
+				if f[2] == "idle" {
+					// the property itself: a served client that stays idle for the timeout releases its slot
+					o.fail("property", "idle-not-released", "session still running 2 s after going idle (timeout "+fmt.Sprint(timeout)+")", "finished", "an idle served client was not dropped after the configured timeout")
+				} else {
+					o.fail("correspondence", "finish", "session did not end ("+f[2]+")", "finished", "")
+				}
 			}
 			if f[2] == "idle" {
 				el := time.Since(lr.lastReq[id])
@@ -679,11 +684,73 @@ func lifeCheck(prop string) checkFn {
 		for i := 0; i < n; i++ {
 			run(1+r.Intn(3), nil, 12+r.Intn(40))
 		}
+		if prop == "C10" {
+			rapidRestart(tier, res)
+		}
 		if prop == "C10" || prop == "C09" {
 			collectRaceReports(res, "race")
 		}
 		return nil
 	}
+}
+
+// rapidRestart: Stop immediately followed by Start, many times, without the scheduler (the accept
+// goroutine of the previous run wakes up from its failed Accept while the next run is already
+// started). Afterwards exactly one accept goroutine may exist, the server must serve, and after a
+// final Stop none may be left.
+func rapidRestart(tier string, res *Result) {
+	modbus.VerifSetScheduler(nil)
+	h := &scriptedHandler{script: []string{"ok"}, events: &[]string{}, evmu: &sync.Mutex{}}
+	srv, err := modbus.NewServer(&modbus.ServerConfiguration{URL: "tcp://127.0.0.1:0", Timeout: time.Second, MaxClients: 4, Logger: quietLog}, h)
+	if err != nil {
+		res.Note("rapid restart: " + err.Error())
+		return
+	}
+	base := serverGoroutines()
+	cycles := scale(tier, 150, 1500)
+	if err := srv.Start(); err != nil {
+		res.Note("rapid restart: " + err.Error())
+		return
+	}
+	addr := srv.VerifListenAddr().String()
+	_ = addr
+	for i := 0; i < cycles; i++ {
+		srv.Stop()
+		if err := srv.Start(); err != nil { // the port of 127.0.0.1:0 changes with every Start
+			res.Note("rapid restart: " + err.Error())
+			break
+		}
+	}
+	line := fmt.Sprintf("rapid restart: Start; %d x (Stop; Start)", cycles)
+	settle := time.Now().Add(2 * time.Second) // the old accept goroutines only have to return from a failed Accept
+	for serverGoroutines()-base != 1 && time.Now().Before(settle) {
+		time.Sleep(10 * time.Millisecond)
+	}
+	if n := serverGoroutines() - base; n != 1 {
+		res.Add(Finding{Kind: "property", Check: "restart-goroutines", Line: line, Impl: fmt.Sprintf("%d server goroutines alive while started and idle", n), Expect: "1 (the accept goroutine of the current run)",
+			Note: "an accept goroutine of an earlier run outlived its Stop"})
+	}
+	// serves after the last Start
+	if c, err := net.DialTimeout("tcp", srv.VerifListenAddr().String(), time.Second); err == nil {
+		c.Write(mbapFrame(1, 0, 1, 3, append(be16b(1), be16b(1)...)))
+		c.SetReadDeadline(time.Now().Add(time.Second))
+		buf := make([]byte, 32)
+		if n, _ := c.Read(buf); n < 9 {
+			res.Add(Finding{Kind: "property", Check: "restart-serves", Line: line, Impl: fmt.Sprintf("%d reply bytes", n), Expect: "a reply", Note: "Start after Stop does not serve"})
+		}
+		c.Close()
+	} else {
+		res.Add(Finding{Kind: "property", Check: "restart-serves", Line: line, Impl: err.Error(), Expect: "connection accepted"})
+	}
+	srv.Stop()
+	deadline := time.Now().Add(time.Second)
+	for serverGoroutines()-base > 0 && time.Now().Before(deadline) {
+		time.Sleep(5 * time.Millisecond)
+	}
+	if n := serverGoroutines() - base; n > 0 {
+		res.Add(Finding{Kind: "property", Check: "goroutine-leak", Line: line + "; Stop", Impl: fmt.Sprintf("%d server goroutines alive 1 s after Stop", n), Expect: "0", Note: "a server goroutine outlives Stop"})
+	}
+	res.Eval("rapid-restart", true, line)
 }
 
 func classKey(cs []string) string {
